@@ -359,6 +359,7 @@ fn hook_event(kind: u8, arg: usize) {
     // with readers that already see it
     if (kind == v::EV_CAS_WON || kind == v::EV_CAS_LOST) && arg < 29 {
         hook_event_inner(kind, arg);
+        trace::bump(C::post_cas_yields);
         yield_point(arg as u16 + 3);
         return;
     }
